@@ -621,14 +621,16 @@ mod writers {
         let mut out = vec![];
         for f in files {
             let rel = f.strip_prefix(&root).unwrap().to_string_lossy().trim_start_matches('/').to_string();
-            if rel.starts_with("src/verif_hooks") || rel.ends_with("/tests.rs") { continue; }
+            if rel.starts_with("src/verif_hooks") || rel.ends_with("tests.rs") { continue; }
             let txt = std::fs::read_to_string(&f).unwrap_or_default();
             let code = match txt.find("#[cfg(test)]") { Some(i) => &txt[..i], None => &txt[..] };
             let squeezed: String = code.chars().filter(|c| !c.is_whitespace() || *c == '\n').collect();
             let flat = squeezed.replace('\n', "\u{1}");
             let mut from = 0;
             // tolerate a line break between the field and the call
-            let pats = ["remote_addr.write()", "remote_addr\u{1}.write()"];
+            // also the non-blocking and the fully qualified spellings
+            let pats = ["remote_addr.write()", "remote_addr\u{1}.write()", "remote_addr.try_write()", "remote_addr\u{1}.try_write()",
+                "write(&self.remote_addr)", "write(&conn.remote_addr)", "write(&ice_conn.remote_addr)", "remote_addr.get_mut()"];
             loop {
                 let next = pats.iter().filter_map(|p| flat[from..].find(p).map(|i| i + from)).min();
                 let Some(i) = next else { break };
@@ -639,7 +641,29 @@ mod writers {
         }
         out
     }
+    /// `IceConn` construction sites in non-test code: a NEW connection object is a new, unlatched latch
+    pub fn creators() -> std::collections::BTreeMap<String, usize> {
+        let root = repo();
+        let mut files = vec![];
+        scan(std::path::Path::new(&format!("{root}/src")), &mut files);
+        let mut out = std::collections::BTreeMap::new();
+        for f in files {
+            let rel = f.strip_prefix(&root).unwrap().to_string_lossy().trim_start_matches('/').to_string();
+            if rel.starts_with("src/verif_hooks") || rel.ends_with("tests.rs") || rel == "src/transports/ice/conn.rs" { continue; }
+            let txt = std::fs::read_to_string(&f).unwrap_or_default();
+            let code = match txt.find("#[cfg(test)]") { Some(i) => &txt[..i], None => &txt[..] };
+            let n = code.matches("IceConn::new").count();
+            if n > 0 || rel == "src/peer_connection.rs" { out.insert(rel, n); }
+        }
+        out
+    }
     pub fn run(run: &mut Run) {
+        let cr = creators();
+        run.case("writers", &cr.iter().map(|(f, n)| format!("{f}#new={n}")).collect::<Vec<_>>().join(" "),
+            &cr.keys().map(|f| format!("{f}#new=ok")).collect::<Vec<_>>().join(" "), true);
+        for (f, n) in &cr { let want = if f == "src/peer_connection.rs" { 2 } else { 0 };
+            if *n != want { run.fail(&format!("tie:unmodelled-iceconn-construction-site:{f}"), &format!("writers {f}#new={n}"),
+                "the pc stream covers the two construction sites in peer_connection.rs (start_dtls: primary, ensure_direct_rtp_media_transport: extra); a further site creates a connection whose latch state starts fresh"); } }
         let sites = sites();
         let mut per: std::collections::BTreeMap<String, Vec<usize>> = Default::default();
         per.insert("src/transports/ice/conn.rs".into(), vec![]);
@@ -685,15 +709,22 @@ mod pc_stream {
     const NAMES: [&str; 9] = ["S", "A", "C", "B", "T", "X", "Y", "R", "U"];
 
     #[derive(Clone, Debug)]
-    pub enum Step { Pkt(usize, Vec<u8>), Answer(usize), Reinvite(usize), Stun(usize) }
+    /// `Answer` / `Reinvite` carry the endpoint and what the SDP announces as `a=ssrc`:
+    /// 0 = no `a=ssrc` line, 1 = `SSRC`, 2 = `SSRC2`, 9 = as the case's `ssrc` flag says (SSRC or none)
+    pub enum Step { Pkt(usize, Vec<u8>), Answer(usize, u8), Reinvite(usize, u8), Stun(usize) }
+    pub const SSRC2: u32 = 0x5566_7788;
+    /// what the PC feeds `set_remote_rtcp_addr` for an endpoint: nothing with rtcp-mux, else RTP port + 1 (symbolic R / U)
+    fn ra_op(i: usize, mux: bool) -> String { if mux { "ra,-".into() } else { format!("ra,{},{}", SYM[i].0, SYM[i].1 + 1) } }
+    fn rtcp_text(net: &Net, conn: &IceConn) -> String { match *conn.remote_rtcp_addr.read() { None => "-".into(), Some(a) => { let r = net.sym(a); format!("{}:{}", r.0, r.1) } } }
+    fn ssrc_of(c: &PcCase, sid: u8) -> Option<u32> { match sid { 0 => None, 1 => Some(SSRC), 2 => Some(SSRC2), _ => if c.ssrc { Some(SSRC) } else { None } } }
     #[derive(Clone, Debug)]
     pub struct PcCase { pub maxp: u8, pub ssrc: bool, pub mux: bool, pub steps: Vec<Step> }
 
     pub fn case_text(c: &PcCase) -> String {
         format!("pc {},{},{} {}", c.maxp, c.ssrc as u8, c.mux as u8, c.steps.iter().map(|s| match s {
             Step::Pkt(i, b) => format!("p,{},{}", NAMES[*i], hex(b)),
-            Step::Answer(i) => format!("answer,{}", NAMES[*i]),
-            Step::Reinvite(i) => format!("reinvite,{}", NAMES[*i]),
+            Step::Answer(i, sid) => format!("answer,{},{sid}", NAMES[*i]),
+            Step::Reinvite(i, sid) => format!("reinvite,{},{sid}", NAMES[*i]),
             Step::Stun(i) => format!("stun,{}", NAMES[*i]) }).collect::<Vec<_>>().join(" "))
     }
     pub fn parse(s: &str) -> PcCase {
@@ -701,8 +732,8 @@ mod pc_stream {
         let h: Vec<&str> = it.next().unwrap().split(',').collect();
         let idx = |n: &str| NAMES.iter().position(|x| *x == n).unwrap();
         let steps = it.map(|t| { let f: Vec<&str> = t.split(',').collect(); match f[0] {
-            "p" => Step::Pkt(idx(f[1]), crate::unhex(f[2])), "answer" => Step::Answer(idx(f[1])),
-            "reinvite" => Step::Reinvite(idx(f[1])), _ => Step::Stun(idx(f[1])) } }).collect();
+            "p" => Step::Pkt(idx(f[1]), crate::unhex(f[2])), "answer" => Step::Answer(idx(f[1]), f.get(2).map(|x| x.parse().unwrap()).unwrap_or(9)),
+            "reinvite" => Step::Reinvite(idx(f[1]), f.get(2).map(|x| x.parse().unwrap()).unwrap_or(9)), _ => Step::Stun(idx(f[1])) } }).collect();
         PcCase { maxp: h[0].parse().unwrap(), ssrc: h[1] == "1", mux: h.get(2) != Some(&"0"), steps }
     }
 
@@ -745,12 +776,12 @@ mod pc_stream {
         }
     }
 
-    fn sdp(addr: SocketAddr, ver: u32, ssrc: bool, mux: bool) -> String {
+    fn sdp(addr: SocketAddr, ver: u32, ssrc: Option<u32>, mux: bool) -> String {
         format!("v=0\r\no=- 1 {ver} IN IP4 {ip}\r\ns=-\r\nt=0 0\r\nc=IN IP4 {ip}\r\nm=audio {port} RTP/AVP 0\r\na=rtpmap:0 PCMU/8000\r\n{mx}a=sendrecv\r\n{s}",
-            mx = if mux { "a=rtcp-mux\r\n" } else { "" }, ip = addr.ip(), port = addr.port(), s = if ssrc { format!("a=ssrc:{} cname:verif\r\n", SSRC) } else { String::new() })
+            mx = if mux { "a=rtcp-mux\r\n" } else { "" }, ip = addr.ip(), port = addr.port(), s = match ssrc { Some(v) => format!("a=ssrc:{v} cname:verif\r\n"), None => String::new() })
     }
 
-    pub struct PcOut { pub model_ops: Vec<String>, pub obs: Vec<String>, pub fails: Vec<(String, String)>, pub stun_rewrites: u64, pub stun_moved_open: u64, pub split_rtcp: u64, pub hidden: Vec<String> }
+    pub struct PcOut { pub model_ops: Vec<String>, pub obs: Vec<String>, pub fails: Vec<(String, String)>, pub stun_rewrites: u64, pub stun_moved_open: u64, pub split_rtcp: u64, pub ssrc_handoffs: u64, pub hidden: Vec<String> }
 
     pub async fn exec(c: &PcCase) -> Result<PcOut, String> {
         let net = Net::new().await.ok_or("could not bind the loopback sockets")?;
@@ -765,21 +796,22 @@ mod pc_stream {
         let offer = pc.create_offer().await.map_err(|e| format!("create_offer: {e:?}"))?;
         pc.set_local_description(offer).map_err(|e| format!("set_local: {e:?}"))?;
         let local = pc.ice_transport().local_candidates().into_iter().find(|c| c.component == 1).ok_or("no local candidate")?.address;
-        let pr = SessionDescription::parse(SdpType::Pranswer, &sdp(net.real(0), 1, c.ssrc, c.mux)).map_err(|e| format!("sdp: {e:?}"))?;
+        let pr = SessionDescription::parse(SdpType::Pranswer, &sdp(net.real(0), 1, ssrc_of(c, 9), c.mux)).map_err(|e| format!("sdp: {e:?}"))?;
         pc.set_remote_description(pr).await.map_err(|e| format!("set_remote(pranswer): {e:?}"))?;
         let mut transport = None;
         for _ in 0..500 { if let Some(t) = pc.verif_lc_rtp_transport() { transport = Some(t); break; } tokio::time::sleep(Duration::from_millis(2)).await; }
         let conn = transport.ok_or("no rtp transport after pranswer")?.ice_conn();
         tokio::time::sleep(Duration::from_millis(20)).await;
-        let observe = |net: &Net| { let r = net.sym(*conn.remote_addr.read()); format!("{}:{}/{}", r.0, r.1, conn.rtp_latched.load(Ordering::Relaxed) as u8) };
-        let mut out = PcOut { model_ops: vec![format!("init,{},{},{},0", SYM[0].0, SYM[0].1, c.maxp), "en".into(), format!("sg,{},{}", SYM[0].0, SYM[0].1)], obs: vec![], fails: vec![], stun_rewrites: 0, stun_moved_open: 0, split_rtcp: 0, hidden: vec![] };
+        let observe = |net: &Net| { let r = net.sym(*conn.remote_addr.read()); format!("{}:{}/{}/{}/{}", r.0, r.1, conn.rtp_latched.load(Ordering::Relaxed) as u8, conn.expected_ssrc.load(Ordering::Relaxed), rtcp_text(net, &conn)) };
+        let mut out = PcOut { model_ops: vec![format!("init,{},{},{},0", SYM[0].0, SYM[0].1, c.maxp), "en".into(), format!("sg,{},{}", SYM[0].0, SYM[0].1), ra_op(0, c.mux)], obs: vec![], fails: vec![], stun_rewrites: 0, stun_moved_open: 0, split_rtcp: 0, ssrc_handoffs: 0, hidden: vec![] };
         { let (on, exp, mx, pr) = conn.verif_latch_state(); out.hidden.push(format!("on={on} expected={exp} maxp={mx} prob={:?}", pr.map(|p| (p.0, p.1, p.2.len())))); }
-        if c.ssrc { out.model_ops.push(format!("ss,{SSRC}")); }
+        if c.ssrc { out.model_ops.push(format!("ss,{SSRC}")); out.ssrc_handoffs += 1;
+            if conn.expected_ssrc.load(Ordering::Relaxed) != SSRC { out.fails.push(("pc:ssrc:announced-ssrc-not-handed-to-the-latch:primary-creation".into(), format!("pranswer announces {SSRC}, latch expects {}", conn.expected_ssrc.load(Ordering::Relaxed)))); } }
         out.model_ops.push("|".into());
         out.obs.push(observe(&net));
         let mut ver = 2;
         let mut pair_remote = 0usize; // symbolic index of the selected pair's remote
-        let mut signaled = 0usize;    // symbolic index of the endpoint in the last applied remote SDP
+        let mut signaled: (usize, Option<u32>) = (0, ssrc_of(c, 9)); // endpoint and a=ssrc of the last applied remote SDP
         for (k, st) in c.steps.iter().enumerate() {
             let before = *conn.remote_addr.read();
             match st {
@@ -790,22 +822,28 @@ mod pc_stream {
                     if conn.rx_packets.load(Ordering::Relaxed) == n0 { return Err(format!("step {k}: datagram not delivered to IceConn::receive")); }
                     out.model_ops.push(format!("p,{},{},{}", SYM[*i].0, SYM[*i].1, hex(b)));
                 }
-                Step::Answer(i) => {
-                    let d = SessionDescription::parse(SdpType::Answer, &sdp(net.real(*i), ver, c.ssrc, c.mux)).map_err(|e| format!("sdp: {e:?}"))?; ver += 1;
-                    pc.set_remote_description(d).await.map_err(|e| format!("set_remote(answer): {e:?}"))?;
-                    // an SDP whose media parameters are unchanged is not re-applied (`set_remote_description` shortcut)
-                    if *i != signaled { out.model_ops.push(format!("sg,{},{}", SYM[*i].0, SYM[*i].1)); pair_remote = *i; signaled = *i; }
-                    else { out.model_ops.push(format!("mp,{}", c.maxp)); }
-                }
-                Step::Reinvite(i) => {
-                    let d = SessionDescription::parse(SdpType::Offer, &sdp(net.real(*i), ver, c.ssrc, c.mux)).map_err(|e| format!("sdp: {e:?}"))?; ver += 1;
-                    pc.set_remote_description(d).await.map_err(|e| format!("set_remote(reinvite): {e:?}"))?;
-                    let a = pc.create_answer().await.map_err(|e| format!("create_answer: {e:?}"))?;
-                    pc.set_local_description(a).map_err(|e| format!("set_local(answer): {e:?}"))?;
-                    // `handle_reinvite` → `complete_direct_rtp` (a pair update, applied by the monitor task) and then
-                    // `configure_rtp_media_transports_from_remote` → `set_remote_addr_from_signaling`: net effect `sg`
-                    if *i != signaled { out.model_ops.push(format!("sg,{},{}", SYM[*i].0, SYM[*i].1)); pair_remote = *i; signaled = *i; }
-                    else { out.model_ops.push(format!("mp,{}", c.maxp)); }
+                Step::Answer(i, sid) | Step::Reinvite(i, sid) => {
+                    let reinvite = matches!(st, Step::Reinvite(..));
+                    let ss = ssrc_of(c, *sid);
+                    let d = SessionDescription::parse(if reinvite { SdpType::Offer } else { SdpType::Answer }, &sdp(net.real(*i), ver, ss, c.mux)).map_err(|e| format!("sdp: {e:?}"))?; ver += 1;
+                    pc.set_remote_description(d).await.map_err(|e| format!("set_remote({}): {e:?}", if reinvite { "reinvite" } else { "answer" }))?;
+                    if reinvite {
+                        let a = pc.create_answer().await.map_err(|e| format!("create_answer: {e:?}"))?;
+                        pc.set_local_description(a).map_err(|e| format!("set_local(answer): {e:?}"))?;
+                    }
+                    // An SDP whose media sections are unchanged is not re-applied (`set_remote_description` shortcut). A changed
+                    // one (endpoint OR a=ssrc) runs `configure_rtp_media_transport(primary)`: `set_remote_addr_from_signaling`
+                    // (model `sg`: reset + retarget — for a re-INVITE preceded by `handle_reinvite`'s pair update, which the
+                    // monitor applies to the same address) and, when it announces one, `set_expected_ssrc` (model `ss`);
+                    // an SDP without `a=ssrc` leaves the previous expectation in place.
+                    if (*i, ss) != signaled {
+                        match ss {
+                            Some(v) => { out.model_ops.push(format!("~sg,{},{}", SYM[*i].0, SYM[*i].1)); out.model_ops.push(format!("~{}", ra_op(*i, c.mux))); out.model_ops.push(format!("ss,{v}")); out.ssrc_handoffs += 1;
+                                if conn.expected_ssrc.load(Ordering::Relaxed) != v { out.fails.push(("pc:ssrc:announced-ssrc-not-handed-to-the-latch:primary-retarget".into(), format!("step {k}: SDP announces {v}, latch expects {}", conn.expected_ssrc.load(Ordering::Relaxed)))); } }
+                            None => { out.model_ops.push(format!("~sg,{},{}", SYM[*i].0, SYM[*i].1)); out.model_ops.push(ra_op(*i, c.mux)); }
+                        }
+                        pair_remote = *i; signaled = (*i, ss);
+                    } else { out.model_ops.push(format!("mp,{}", c.maxp)); }
                 }
                 Step::Stun(i) => {
                     let m = StunMessage { class: StunClass::Request, method: StunMethod::Binding, transaction_id: [k as u8; 12], attributes: vec![] };
@@ -839,6 +877,12 @@ mod pc_stream {
             }
             if matches!(st, Step::Stun(_)) && *conn.remote_addr.read() != before {
                 out.stun_moved_open += 1;
+                // KNOWN finding (clause 1, literally): an unauthenticated STUN request moved the open latch's destination
+                // to a host that never sent RTP. Emitted with its own signature so that any widening (other ports: signature
+                // below; a latched destination: sticky oracle; other transports) shows up as something else.
+                if !out.model_ops.last().map(|t| t.starts_with("mp,")).unwrap_or(false) {
+                    out.fails.push(("pc:move:stun-request-moved-open-destination".into(), format!("step {k}: {:?} -> {:?} by a STUN binding request without credentials", net.sym(before), net.sym(*conn.remote_addr.read()))));
+                }
                 if out.model_ops.last().map(|t| t.starts_with("mp,")).unwrap_or(false) {
                     out.fails.push(("pc:move:stun-request-not-from-the-pair-port-moved-destination".into(), format!("step {k}: {:?} -> {:?}", net.sym(before), net.sym(*conn.remote_addr.read()))));
                 }
@@ -850,13 +894,18 @@ mod pc_stream {
     }
 
     fn emit(run: &mut Run, rt: &tokio::runtime::Runtime, c: &PcCase) {
-        let text = case_text(c);
-        match rt.block_on(exec(c)) {
-            Err(e) => { run.count("pc_setup_errors"); run.fail("pc:scenario-could-not-run", &text, &e); }
+        let r = rt.block_on(exec(c));
+        finish(run, rt, &case_text(c), r, "pc_scenarios");
+    }
+    /// correspondence case + the property oracles for one executed scenario (all three scenario kinds)
+    fn finish(run: &mut Run, rt: &tokio::runtime::Runtime, text: &str, r: Result<PcOut, String>, count_key: &str) -> Option<Vec<String>> {
+        let text = text.to_string();
+        match r {
+            Err(e) => { run.count("pc_setup_errors"); run.fail("pc:scenario-could-not-run", &text, &e); None }
             Ok(o) => {
                 let input = o.model_ops.join(" ");
                 run.case("pc", &input, &o.obs.join(" "), true);
-                run.count("pc_scenarios");
+                run.count(count_key);
                 run.count_n("pc_stun_pair_rewrites", o.stun_rewrites);
                 // visible in the evidence: an unauthenticated RTP-mode STUN request (same port, other IP) moved the
                 // destination while the latch was open — a selected-pair update in the property's alphabet
@@ -864,18 +913,28 @@ mod pc_stream {
                 run.count_n("pc_send_probes_with_separate_rtcp_destination", o.split_rtcp);
                 // property oracles on the observations: the same `oracles` as the bare-IceConn stream,
                 // applied to the op list the scenario stands for (public fields only)
-                let ops: Vec<String> = o.model_ops.iter().filter(|t| *t != "|").cloned().collect();
+                // silent ops (`~op`: applied inside the same API call as the next op) get the following observation twice… no:
+                // the oracles need one observation per op, so a silent op is merged into its successor by dropping it when it
+                // is a retarget immediately followed by `ss` (the `ss` oracle only requires destination and latch to stay).
+                let ops: Vec<String> = o.model_ops.iter().filter(|t| *t != "|").map(|t| t.trim_start_matches('~').to_string()).collect();
                 let case = parse_case(&ops.join(" "));
                 let npre = o.model_ops.iter().position(|t| t == "|").unwrap() - 1;
-                let parse_obs = |t: &str| { let (r, l) = t.split_once('/').unwrap(); let (i, p) = r.split_once(':').unwrap();
-                    Obs { remote: (i.parse().unwrap(), p.parse().unwrap()), rtcp: None, latched: l == "1", rtcpl: false, fwd: "-", on: false /* hidden part not observed here: skips the table oracles */, exp: 0, maxp: 0, prob: None } };
+                let parse_obs = |t: &str| { let f: Vec<&str> = t.split('/').collect(); let (r, l) = (f[0], f[1]); let (i, p) = r.split_once(':').unwrap();
+                    Obs { remote: (i.parse().unwrap(), p.parse().unwrap()), rtcp: f.get(3).and_then(|x| x.split_once(':')).map(|(a, b)| (a.parse().unwrap(), b.parse().unwrap())), latched: l == "1", rtcpl: false, fwd: "-", on: false /* hidden part not observed here: skips the table oracles */, exp: 0, maxp: 0, prob: None } };
                 // states during the prefix are not observable (inside set_remote_description): replay it on a bare IceConn
                 let pre = exec_prefix(rt, &case, npre);
                 let mut obs: Vec<Obs> = pre;
                 obs.pop();
-                obs.extend(o.obs.iter().map(|t| parse_obs(t)));
-                for (sig, d) in oracles(&case, &obs) { if !sig.starts_with("rtcp:set") { run.fail(&format!("pc:{sig}"), &text, &d); } }
+                obs.push(parse_obs(&o.obs[0]));
+                let mut j = 0;
+                for t in o.model_ops.iter().skip(npre + 2) { // ops after `|`; a silent op shares the observation of its successor
+                    if !t.starts_with('~') { j += 1; }
+                    obs.push(parse_obs(&o.obs[if t.starts_with('~') { j + 1 } else { j }]));
+                }
+                run.count_n("pc_ssrc_handoffs_from_sdp", o.ssrc_handoffs);
+                for (sig, d) in oracles(&case, &obs) { run.fail(&format!("pc:{sig}"), &text, &d); }
                 for (sig, d) in o.fails { run.fail(&sig, &text, &d); }
+                Some(o.obs)
             }
         }
     }
@@ -890,20 +949,30 @@ mod pc_stream {
         let rtcp_ = |i: usize| Step::Pkt(i, rtcp());
         let mut v = vec![
             // commit by marker, then everything that must not move the destination
-            PcCase { maxp: 6, ssrc: true, mux: true, steps: vec![p(1, true, 10), p(2, true, 1), rtcp_(3), wrong(3), Step::Stun(5), Step::Answer(0), Step::Stun(5), Step::Stun(1), p(3, true, 2)] },
+            PcCase { maxp: 6, ssrc: true, mux: true, steps: vec![p(1, true, 10), p(2, true, 1), rtcp_(3), wrong(3), Step::Stun(5), Step::Answer(0, 9), Step::Stun(5), Step::Stun(1), p(3, true, 2)] },
             // re-INVITE to a new endpoint resets and retargets; STUN from the new pair's port retargets the open latch
-            PcCase { maxp: 6, ssrc: true, mux: true, steps: vec![p(1, true, 10), Step::Answer(0), Step::Reinvite(4), rtcp_(2), Step::Stun(5), Step::Stun(6), wrong(1), p(2, true, 3), Step::Stun(5), Step::Reinvite(4)] },
+            PcCase { maxp: 6, ssrc: true, mux: true, steps: vec![p(1, true, 10), Step::Answer(0, 9), Step::Reinvite(4, 9), rtcp_(2), Step::Stun(5), Step::Stun(6), wrong(1), p(2, true, 3), Step::Stun(5), Step::Reinvite(4, 9)] },
             // open latch: pair updates do move it, wrong-SSRC / RTCP / non-matching STUN do not
-            PcCase { maxp: 6, ssrc: true, mux: true, steps: vec![rtcp_(1), wrong(2), Step::Stun(1), Step::Stun(5), p(1, false, 10), Step::Answer(4), Step::Stun(6), p(2, false, 20), p(2, false, 21), p(2, false, 22)] },
+            PcCase { maxp: 6, ssrc: true, mux: true, steps: vec![rtcp_(1), wrong(2), Step::Stun(1), Step::Stun(5), p(1, false, 10), Step::Answer(4, 9), Step::Stun(6), p(2, false, 20), p(2, false, 21), p(2, false, 22)] },
             // changed final answer resets the latch and retargets
-            PcCase { maxp: 3, ssrc: true, mux: false, steps: vec![p(1, true, 10), Step::Answer(4), rtcp_(2), p(3, false, 5), p(2, false, 9), p(3, false, 6)] },
+            PcCase { maxp: 3, ssrc: true, mux: false, steps: vec![p(1, true, 10), Step::Answer(4, 9), rtcp_(2), p(3, false, 5), p(2, false, 9), p(3, false, 6)] },
             // same final answer keeps the latched NAT address
-            PcCase { maxp: 3, ssrc: false, mux: true, steps: vec![p(1, true, 10), Step::Answer(0), p(2, true, 1), Step::Stun(5)] },
+            PcCase { maxp: 3, ssrc: false, mux: true, steps: vec![p(1, true, 10), Step::Answer(0, 9), p(2, true, 1), Step::Stun(5)] },
             // immediate-latch mode, no SSRC known
-            PcCase { maxp: 0, ssrc: false, mux: false, steps: vec![rtcp_(2), p(2, false, 1), p(1, false, 2), Step::Answer(4), Step::Stun(6), Step::Reinvite(0), p(3, false, 9)] },
+            PcCase { maxp: 0, ssrc: false, mux: false, steps: vec![rtcp_(2), p(2, false, 1), p(1, false, 2), Step::Answer(4, 9), Step::Stun(6), Step::Reinvite(0, 9), p(3, false, 9)] },
             // rule competition through the real sockets (window 6)
             PcCase { maxp: 6, ssrc: true, mux: true, steps: vec![p(3, false, 1), p(1, false, 100), p(3, false, 10), p(1, false, 101), p(3, false, 20), p(1, false, 102), p(2, true, 0)] },
         ];
+        // the SSRC announced by a later SDP must reach the latch (primary retarget site): a re-INVITE / changed answer
+        // announcing SSRC2 — old-SSRC RTP must no longer move or commit anything, SSRC2 RTP must
+        let p2 = |i: usize, m: bool, seq: u16| Step::Pkt(i, rtp(m, seq, seq as u32, SSRC2));
+        v.push(PcCase { maxp: 3, ssrc: true, mux: true, steps: vec![p(1, true, 10), Step::Answer(0, 9), Step::Reinvite(4, 2), p(2, true, 11), p(2, false, 12), p2(3, false, 50), p2(3, false, 51), p2(3, false, 52)] });
+        v.push(PcCase { maxp: 0, ssrc: true, mux: true, steps: vec![Step::Answer(4, 2), p(1, false, 10), p2(2, false, 20), p(3, false, 30)] });
+        v.push(PcCase { maxp: 6, ssrc: true, mux: false, steps: vec![p(1, true, 10), Step::Answer(0, 9), Step::Reinvite(0, 2), p(2, true, 11), p2(3, true, 50), Step::Reinvite(0, 0), p(1, true, 12), Step::Reinvite(4, 0), p(1, true, 13), p2(2, true, 60)] });
+        v.push(PcCase { maxp: 2, ssrc: false, mux: true, steps: vec![p(1, false, 10), Step::Answer(0, 1), p2(2, false, 20), p2(2, false, 21), p(3, false, 30), p(3, false, 40)] });
+        // RTCP destination in a real connection (no rtcp-mux): learnt once from the first foreign RTCP sender, not again
+        // until a new description re-arms it
+        v.push(PcCase { maxp: 3, ssrc: true, mux: false, steps: vec![rtcp_(1), rtcp_(2), rtcp_(3), p(1, true, 10), rtcp_(3), Step::Answer(4, 9), rtcp_(2), rtcp_(3), rtcp_(1)] });
         let mut rng = Rng::new(args.seed ^ 0x18);
         let n = if args.tier_thorough { 120 } else { 14 };
         for _ in 0..n {
@@ -912,11 +981,12 @@ mod pc_stream {
             let mut seqs = [100u16, 200, 300, 400, 500, 600, 700];
             for _ in 0..rng.range(4, 12) {
                 let r = rng.below(100);
-                steps.push(if r < 55 { let i = *rng.pick(&[1usize, 2, 3, 3, 2, 5]); seqs[i] = if rng.chance(2, 3) { seqs[i].wrapping_add(1) } else { seqs[i].wrapping_sub(3) }; p(i, rng.chance(1, 6), seqs[i]) }
+                steps.push(if r < 45 { let i = *rng.pick(&[1usize, 2, 3, 3, 2, 5]); seqs[i] = if rng.chance(2, 3) { seqs[i].wrapping_add(1) } else { seqs[i].wrapping_sub(3) }; p(i, rng.chance(1, 6), seqs[i]) }
+                    else if r < 55 { let i = *rng.pick(&[1usize, 2, 3]); seqs[i] = seqs[i].wrapping_add(1); p2(i, rng.chance(1, 4), seqs[i]) }
                     else if r < 65 { wrong(*rng.pick(&[1usize, 2, 3])) } else if r < 75 { rtcp_(*rng.pick(&[1usize, 2, 3])) }
                     else if r < 87 { Step::Stun(*rng.pick(&[1usize, 3, 5, 6])) }
-                    else if answered { Step::Reinvite(*rng.pick(&[0usize, 4])) }
-                    else { answered = true; Step::Answer(*rng.pick(&[0usize, 4])) });
+                    else if answered { Step::Reinvite(*rng.pick(&[0usize, 4]), *rng.pick(&[9u8, 9, 1, 2, 0])) }
+                    else { answered = true; Step::Answer(*rng.pick(&[0usize, 4]), *rng.pick(&[9u8, 9, 2, 0])) });
             }
             v.push(PcCase { maxp: *rng.pick(&[0u8, 2, 3, 6]), ssrc: rng.chance(2, 3), mux: rng.chance(1, 2), steps });
         }
@@ -947,8 +1017,9 @@ mod pc_stream {
         let vport: u16 = offer_text.lines().find_map(|l| l.strip_prefix("m=video ")).and_then(|r| r.split(' ').next()).and_then(|p| p.parse().ok()).ok_or("no m=video port")?;
         let local = SocketAddr::new(IpAddr::V4(Ipv4Addr::new(127, 0, 0, 1)), vport);
         let observe = |net: &Net| { let a = *conn.remote_addr.read(); let r = if a.port() == 0 && a.ip().is_unspecified() { (0, 0) } else { net.sym(a) };
-            format!("{}:{}/{}", r.0, r.1, conn.rtp_latched.load(Ordering::Relaxed) as u8) };
-        let mut out = PcOut { model_ops: vec![format!("init,0,0,{},0", c.maxp), "en".into(), "|".into()], obs: vec![observe(&net)], fails: vec![], stun_rewrites: 0, stun_moved_open: 0, split_rtcp: 0, hidden: vec![] };
+            format!("{}:{}/{}/{}/{}", r.0, r.1, conn.rtp_latched.load(Ordering::Relaxed) as u8, conn.expected_ssrc.load(Ordering::Relaxed), rtcp_text(net, &conn)) };
+        let mut video_pair: Option<usize> = None; // remote of the extra transport's selected pair (none before the answer)
+        let mut out = PcOut { model_ops: vec![format!("init,0,0,{},0", c.maxp), "en".into(), "|".into()], obs: vec![observe(&net)], fails: vec![], stun_rewrites: 0, stun_moved_open: 0, split_rtcp: 0, ssrc_handoffs: 0, hidden: vec![] };
         for (k, st) in c.steps.iter().enumerate() {
             match st {
                 Step::Pkt(i, b) => {
@@ -958,7 +1029,8 @@ mod pc_stream {
                     if conn.rx_packets.load(Ordering::Relaxed) == n0 { return Err(format!("step {k}: datagram to the video port {vport} not delivered to the extra IceConn")); }
                     out.model_ops.push(format!("p,{},{},{}", SYM[*i].0, SYM[*i].1, hex(b)));
                 }
-                Step::Answer(i) => {
+                Step::Answer(i, sid) | Step::Reinvite(i, sid) => {
+                    let reinvite = matches!(st, Step::Reinvite(..));
                     // the offer's own media sections, re-addressed: audio at S, video at the given endpoint
                     let mut video = false;
                     let mut ans = String::new();
@@ -974,15 +1046,89 @@ mod pc_stream {
                         else if l.starts_with("a=candidate") || l.starts_with("a=ice-") || l.starts_with("a=rtcp:") || l.starts_with("a=ssrc") || l.starts_with("a=end-of-candidates") { continue; }
                         else { ans.push_str(l); ans.push_str("\r\n"); }
                     }
-                    let d = SessionDescription::parse(SdpType::Answer, &ans).map_err(|e| format!("sdp: {e:?}"))?;
-                    pc.set_remote_description(d).await.map_err(|e| format!("set_remote(answer): {e:?}"))?;
-                    out.model_ops.push(format!("sg,{},{}", SYM[*i].0, SYM[*i].1));
+                    // the video section (last) announces its SSRC: existing-extra-transport hand-off site
+                    if let Some(v) = ssrc_of(c, *sid) { ans.push_str(&format!("a=ssrc:{v} cname:verif\r\n")); }
+                    let d = SessionDescription::parse(if reinvite { SdpType::Offer } else { SdpType::Answer }, &ans).map_err(|e| format!("sdp: {e:?}"))?;
+                    pc.set_remote_description(d).await.map_err(|e| format!("set_remote({}): {e:?}", if reinvite { "reinvite" } else { "answer" }))?;
+                    if reinvite { // a re-INVITE offer: only the existing-extra-transport site hands the new SSRC over
+                        let a = pc.create_answer().await.map_err(|e| format!("create_answer: {e:?}"))?;
+                        pc.set_local_description(a).map_err(|e| format!("set_local(answer): {e:?}"))?;
+                    }
+                    match ssrc_of(c, *sid) {
+                        Some(v) => { out.model_ops.push(format!("~sg,{},{}", SYM[*i].0, SYM[*i].1)); out.model_ops.push(format!("~{}", ra_op(*i, false))); out.model_ops.push(format!("ss,{v}")); out.ssrc_handoffs += 1;
+                            if conn.expected_ssrc.load(Ordering::Relaxed) != v { out.fails.push(("pc:ssrc:announced-ssrc-not-handed-to-the-latch:existing-extra-transport".into(), format!("step {k}: SDP announces {v}, latch expects {}", conn.expected_ssrc.load(Ordering::Relaxed)))); } }
+                        None => { out.model_ops.push(format!("~sg,{},{}", SYM[*i].0, SYM[*i].1)); out.model_ops.push(ra_op(*i, false)); }
+                    }
+                    video_pair = Some(*i);
                 }
-                _ => return Err("only packets and one answer in an extra-transport scenario".into()),
+                Step::Stun(i) => {
+                    // the extra transport has its own IceTransport and pair monitor: same rewrite rule as on the primary
+                    let m = StunMessage { class: StunClass::Request, method: StunMethod::Binding, transaction_id: [k as u8; 12], attributes: vec![] };
+                    let bytes = m.encode(None, true).map_err(|e| format!("stun encode: {e:?}"))?;
+                    let before = *conn.remote_addr.read();
+                    net.socks[*i].send_to(&bytes, local).await.map_err(|e| format!("send: {e}"))?;
+                    let applies = match video_pair { Some(pr) => SYM[*i].1 == SYM[pr].1 && SYM[*i].0 != SYM[pr].0, None => false };
+                    if applies { out.model_ops.push(format!("pr,{},{}", SYM[*i].0, SYM[*i].1)); video_pair = Some(*i); out.stun_rewrites += 1; }
+                    else { out.model_ops.push(format!("mp,{}", c.maxp)); }
+                    tokio::time::sleep(Duration::from_millis(50)).await;
+                    if *conn.remote_addr.read() != before {
+                        out.stun_moved_open += 1;
+                        if applies { out.fails.push(("pc:move:stun-request-moved-open-destination".into(), format!("step {k} (extra transport): {:?} -> {:?} by a STUN binding request without credentials", net.sym(before), net.sym(*conn.remote_addr.read())))); }
+                        else { out.fails.push(("pc:move:stun-request-not-from-the-pair-port-moved-destination".into(), format!("step {k} (extra transport): {:?} -> {:?}", net.sym(before), net.sym(*conn.remote_addr.read())))); }
+                    }
+                }
+                _ => return Err("only packets, STUN, one answer and re-INVITEs in an extra-transport scenario".into()),
             }
             tokio::time::sleep(Duration::from_millis(10)).await;
             out.obs.push(observe(&net));
             { let (on, exp, mx, pr) = conn.verif_latch_state(); out.hidden.push(format!("on={on} expected={exp} maxp={mx} prob={:?}", pr.map(|p| (p.0, p.1, p.2.len())))); }
+        }
+        pc.close();
+        Ok(out)
+    }
+
+    /// The ANSWERER's extra transport: a remote non-BUNDLE offer with two m-lines makes `set_remote_description`
+    /// create the video transport with the offer's endpoint, latching enabled and the offer's `a=ssrc` as the
+    /// expectation (new-extra-transport hand-off site). Steps: packets only. Model prefix `init,T,maxp,0 en [ss,v]`.
+    pub async fn exec_extra_answerer(c: &PcCase, sid: u8) -> Result<PcOut, String> {
+        let net = Net::new().await.ok_or("could not bind the loopback sockets")?;
+        let mut cfg = RtcConfiguration::default();
+        cfg.transport_mode = TransportMode::Rtp;
+        cfg.enable_latching = true;
+        cfg.bind_ip = Some("127.0.0.1".into());
+        cfg.disable_ipv6 = true;
+        cfg.probation_max_packets = if c.maxp == 0 { None } else { Some(c.maxp) };
+        cfg.sdp_compatibility = rustrtc::config::SdpCompatibilityMode::LegacySip;
+        let pc = PeerConnection::new(cfg);
+        let (sa_, ta) = (net.real(0), net.real(4));
+        let vs = match ssrc_of(c, sid) { Some(v) => format!("a=ssrc:{v} cname:verif\r\n"), None => String::new() };
+        let offer = format!("v=0\r\no=- 1 1 IN IP4 {}\r\ns=-\r\nt=0 0\r\nm=audio {} RTP/AVP 0\r\nc=IN IP4 {}\r\na=rtpmap:0 PCMU/8000\r\na=sendrecv\r\nm=video {} RTP/AVP 96\r\nc=IN IP4 {}\r\na=rtpmap:96 VP8/90000\r\na=sendrecv\r\n{vs}",
+            sa_.ip(), sa_.port(), sa_.ip(), ta.port(), ta.ip());
+        let d = SessionDescription::parse(SdpType::Offer, &offer).map_err(|e| format!("sdp: {e:?}"))?;
+        pc.set_remote_description(d).await.map_err(|e| format!("set_remote(offer): {e:?}"))?;
+        let ans = pc.create_answer().await.map_err(|e| format!("create_answer: {e:?}"))?;
+        let ans_text = ans.to_sdp_string();
+        pc.set_local_description(ans).map_err(|e| format!("set_local(answer): {e:?}"))?;
+        let (held, _) = pc.verif_rtp_transports();
+        let vport: u16 = ans_text.lines().find_map(|l| l.strip_prefix("m=video ")).and_then(|r| r.split(' ').next()).and_then(|p| p.parse().ok()).ok_or("no m=video port in the answer")?;
+        let local = SocketAddr::new(IpAddr::V4(Ipv4Addr::new(127, 0, 0, 1)), vport);
+        // the extra transport is the one whose destination is the video endpoint
+        let conn = held.iter().map(|t| t.ice_conn()).find(|c| *c.remote_addr.read() == ta).ok_or_else(|| format!("no transport aimed at the video endpoint; answer:\n{ans_text}"))?;
+        let observe = |net: &Net| { let r = net.sym(*conn.remote_addr.read());
+            format!("{}:{}/{}/{}/{}", r.0, r.1, conn.rtp_latched.load(Ordering::Relaxed) as u8, conn.expected_ssrc.load(Ordering::Relaxed), rtcp_text(net, &conn)) };
+        let mut out = PcOut { model_ops: vec![format!("init,{},{},{},0", SYM[4].0, SYM[4].1, c.maxp), "en".into(), ra_op(4, false)], obs: vec![], fails: vec![], stun_rewrites: 0, stun_moved_open: 0, split_rtcp: 0, ssrc_handoffs: 0, hidden: vec![] };
+        if let Some(v) = ssrc_of(c, sid) { out.model_ops.push(format!("ss,{v}")); out.ssrc_handoffs += 1;
+            if conn.expected_ssrc.load(Ordering::Relaxed) != v { out.fails.push(("pc:ssrc:announced-ssrc-not-handed-to-the-latch:new-extra-transport".into(), format!("offer announces {v}, latch expects {}", conn.expected_ssrc.load(Ordering::Relaxed)))); } }
+        out.model_ops.push("|".into());
+        out.obs.push(observe(&net));
+        for (k, st) in c.steps.iter().enumerate() {
+            let Step::Pkt(i, b) = st else { return Err("only packets in an answerer extra-transport scenario".into()) };
+            let n0 = conn.rx_packets.load(Ordering::Relaxed);
+            net.socks[*i].send_to(b, local).await.map_err(|e| format!("send: {e}"))?;
+            for _ in 0..500 { if conn.rx_packets.load(Ordering::Relaxed) > n0 { break; } tokio::time::sleep(Duration::from_millis(2)).await; }
+            if conn.rx_packets.load(Ordering::Relaxed) == n0 { return Err(format!("step {k}: datagram to the video port {vport} not delivered")); }
+            out.model_ops.push(format!("p,{},{},{}", SYM[*i].0, SYM[*i].1, hex(b)));
+            out.obs.push(observe(&net));
         }
         pc.close();
         Ok(out)
@@ -993,32 +1139,48 @@ mod pc_stream {
         vec![
             // RTCP, DTLS-like and garbage before anything is known must not set the destination; RTP (no SSRC known) does
             PcCase { maxp: 6, ssrc: false, mux: true, steps: vec![Step::Pkt(1, rtcp()), Step::Pkt(2, vec![22, 254, 253, 0, 0, 0, 0, 0, 0, 0, 0, 0, 1, 0]), Step::Pkt(3, vec![200, 1, 2, 3]),
-                p(1, false, 10), p(2, false, 20), p(2, false, 21), p(2, false, 22), Step::Pkt(3, rtcp()), Step::Answer(4), Step::Pkt(1, rtcp()), p(3, true, 5), Step::Pkt(1, rtcp())] },
-            PcCase { maxp: 0, ssrc: false, mux: true, steps: vec![Step::Pkt(3, rtcp()), Step::Pkt(3, rtp(false, 1, 1, 5)[..8].to_vec()), p(3, false, 1), p(1, true, 2), Step::Answer(4), Step::Pkt(2, rtcp()), p(2, false, 9)] },
+                p(1, false, 10), p(2, false, 20), p(2, false, 21), p(2, false, 22), Step::Pkt(3, rtcp()), Step::Answer(4, 2), Step::Pkt(1, rtcp()), p(3, true, 5), Step::Pkt(3, rtp(true, 6, 6, SSRC2)), Step::Pkt(1, rtcp()),
+                Step::Stun(6), Step::Stun(1),
+                Step::Reinvite(0, 1), Step::Stun(1), Step::Stun(5), Step::Pkt(2, rtp(true, 7, 7, SSRC2)), p(1, true, 8), Step::Stun(6)] },
+            PcCase { maxp: 0, ssrc: false, mux: true, steps: vec![Step::Pkt(3, rtcp()), Step::Pkt(3, rtp(false, 1, 1, 5)[..8].to_vec()), p(3, false, 1), p(1, true, 2), Step::Answer(4, 1), Step::Pkt(2, rtcp()), Step::Pkt(2, rtp(false, 9, 9, SSRC2)), p(2, false, 9), Step::Reinvite(4, 2), p(1, false, 10), Step::Pkt(3, rtp(false, 11, 11, SSRC2))] },
         ]
     }
 
     pub fn run(run: &mut Run, rt: &tokio::runtime::Runtime, args: &Args) {
         for c in scenarios(args) { emit(run, rt, &c); }
+        // answerer side: the offer's a=ssrc must be the expectation of the freshly created extra transport
+        for (sid, maxp) in [(1u8, 3u8), (2, 0), (0, 3)] {
+            let c = PcCase { maxp, ssrc: false, mux: true, steps: vec![Step::Pkt(1, rtcp()), Step::Pkt(2, rtp(true, 5, 5, if sid == 1 { SSRC2 } else { SSRC })),
+                Step::Pkt(3, rtp(false, 7, 7, if sid == 1 { SSRC } else { SSRC2 })), Step::Pkt(3, rtp(true, 8, 8, if sid == 1 { SSRC } else { SSRC2 })), Step::Pkt(1, rtp(true, 9, 9, SSRC))] };
+            let text = case_text(&c).replacen("pc ", &format!("pc answerer{sid}:"), 1);
+            let r = rt.block_on(exec_extra_answerer(&c, sid));
+            finish(run, rt, &text, r, "pc_extra_transport_scenarios");
+        }
         for c in extra_scenarios() {
             let text = case_text(&c).replacen("pc ", "pc extra:", 1);
-            match rt.block_on(exec_extra(&c)) {
-                Err(e) => { run.count("pc_setup_errors"); run.fail("pc:scenario-could-not-run", &text, &e); }
-                Ok(o) => {
-                    run.case("pc", &o.model_ops.join(" "), &o.obs.join(" "), true);
-                    run.count("pc_extra_transport_scenarios");
-                    // clause 1 / 4 directly: before the answer only RTP may set the unset destination
-                    let mut prev = o.obs[0].clone();
-                    for (k, st) in c.steps.iter().enumerate() {
-                        if let Step::Pkt(_, b) = st { if !(is_rtp(b) && b.len() >= 12) && o.obs[k + 1] != prev {
-                            run.fail("pc:move:unset-destination-of-extra-transport-set-by-non-rtp", &text, &format!("step {k}: {} -> {}", prev, o.obs[k + 1])); } }
-                        prev = o.obs[k + 1].clone();
-                    }
+            let r = rt.block_on(exec_extra(&c));
+            if let Some(obs) = finish(run, rt, &text, r, "pc_extra_transport_scenarios") {
+                // clause 1 / 4 directly: before the answer only RTP may set the unset destination
+                let dest = |t: &str| t.split('/').next().unwrap().to_string(); // destination field only
+                let mut prev = dest(&obs[0]);
+                for (k, st) in c.steps.iter().enumerate() {
+                    if let Step::Pkt(_, b) = st { if !(is_rtp(b) && b.len() >= 12) && dest(&obs[k + 1]) != prev {
+                        run.fail("pc:move:unset-destination-of-extra-transport-set-by-non-rtp", &text, &format!("step {k}: {} -> {}", prev, obs[k + 1])); } }
+                    prev = dest(&obs[k + 1]);
                 }
             }
         }
     }
     pub fn replay(rt: &tokio::runtime::Runtime, case: &str) {
+        if let Some(rest) = case.strip_prefix("pc answerer") {
+            let (sid, rest) = rest.split_once(':').unwrap();
+            let c = parse(&format!("pc {rest}"));
+            match rt.block_on(exec_extra_answerer(&c, sid.parse().unwrap())) {
+                Err(e) => println!("pc answerer scenario could not run: {e}"),
+                Ok(o) => { println!("model ops: {}", o.model_ops.join(" ")); println!("impl: {}", o.obs.join(" ")); }
+            }
+            return;
+        }
         if let Some(rest) = case.strip_prefix("pc extra:") {
             let c = parse(&format!("pc {rest}"));
             match rt.block_on(exec_extra(&c)) {
@@ -1051,20 +1213,21 @@ mod race {
     use std::time::Duration;
 
     #[derive(Default)]
-    struct St { paused: [Option<&'static str>; 2], go: [bool; 2], done: [bool; 2], holds: [bool; 2] }
+    struct St { paused: [Option<&'static str>; 2], go: [bool; 2], done: [bool; 2] }
     struct Ctl { m: StdMutex<St>, cv: Condvar }
     thread_local! { static TID: Cell<Option<usize>> = const { Cell::new(None) }; }
 
     fn park(ctl: &Ctl, t: usize, name: &'static str) {
         let mut g = ctl.m.lock().unwrap();
-        if name.ends_with(":unlocked") { g.holds[t] = false; }
         g.paused[t] = Some(name);
         ctl.cv.notify_all();
         while !g.go[t] { g = ctl.cv.wait(g).unwrap(); }
         g.go[t] = false;
         g.paused[t] = None;
-        if name.ends_with(":before-lock") { g.holds[t] = true; }
     }
+    /// yield points that lie INSIDE a latch critical section (everything except the start of the call and the
+    /// point right before `probation.lock()`): a thread parked there must hold the probation mutex
+    fn interior(name: &str) -> bool { name != "start" && !name.ends_with(":before-lock") }
 
     #[derive(Clone, Debug, PartialEq)]
     pub enum Api { Sig(u8, u16), Reset, Pair(u8, u16) }
@@ -1108,8 +1271,16 @@ mod race {
     }
     fn final_text(conn: &IceConn) -> String { observe(conn, "-").text(None).0 }
 
-    /// Runs the schedule; `Err` if a released thread neither reached a point nor finished in time.
-    pub fn exec(c: &RaceCase) -> Result<String, String> {
+    pub struct RaceOut { pub state: String, pub violations: Vec<(String, String)>, pub blocked_seen: u64 }
+
+    /// Runs the schedule on the real code. A pick RELEASES the thread from its yield point. Mutual exclusion
+    /// is OBSERVED, not assumed: the probation mutex is probed with `verif_probation_locked` —
+    ///  * a thread parked at an interior point of its critical section must hold the mutex (probe = locked);
+    ///  * a thread released at `…:before-lock` while the mutex is held must NOT reach its next point before the
+    ///    holder has finished (it is then `blocked`; it proceeds by itself once the holder is done, exactly as
+    ///    `LatchRace.pickR/pickA` say).
+    /// `Err` if a released thread neither reached a point nor finished in time.
+    pub fn exec(c: &RaceCase) -> Result<RaceOut, String> {
         let conn = build(&c.setup);
         let ctl = Arc::new(Ctl { m: StdMutex::new(St::default()), cv: Condvar::new() });
         let ctl_h = ctl.clone();
@@ -1122,47 +1293,67 @@ mod race {
                 park(&ctl, t, "start");
                 if t == 0 { do_pkt(&conn, &pk) } else { do_api(&conn, &api) }
                 let mut g = ctl.m.lock().unwrap();
-                g.done[t] = true; g.holds[t] = false; g.paused[t] = None;
+                g.done[t] = true; g.paused[t] = None;
                 ctl.cv.notify_all();
             }));
         }
+        let settled = |g: &St, t: usize| g.done[t] || (g.paused[t].is_some() && !g.go[t]);
         let wait_parked = |t: usize| -> Result<(), String> {
             let mut g = ctl.m.lock().unwrap();
-            let deadline = std::time::Instant::now() + Duration::from_secs(3);
-            while !(g.done[t] || (g.paused[t].is_some() && !g.go[t])) {
+            let deadline = std::time::Instant::now() + Duration::from_secs(5);
+            while !settled(&g, t) {
                 let (g2, to) = ctl.cv.wait_timeout(g, Duration::from_millis(200)).unwrap();
                 g = g2;
                 if to.timed_out() && std::time::Instant::now() > deadline { return Err(format!("thread {t} neither parked nor finished")); }
             }
             Ok(())
         };
+        let name_of = |t: usize| if t == 0 { "receive" } else { "api" };
+        let mut out = RaceOut { state: String::new(), violations: vec![], blocked_seen: 0 };
+        let mut blocked = [false; 2];
         let mut err = None;
         for t in 0..2 { if let Err(e) = wait_parked(t) { err = Some(e); } }
         let tail = "rsrsrsrsrsrsrsrsrsrs";
         if err.is_none() {
-            for ch in c.sched.chars().chain(tail.chars()) {
+            'sched: for (k, ch) in c.sched.chars().chain(tail.chars()).enumerate() {
                 let t = if ch == 'r' { 0 } else { 1 };
-                {
-                    let mut g = ctl.m.lock().unwrap();
-                    if g.done[t] { continue; }
-                    let at = g.paused[t].unwrap_or("");
-                    if at.ends_with(":before-lock") && g.holds[1 - t] { continue; } // would block on the probation mutex
-                    g.go[t] = true;
-                    ctl.cv.notify_all();
+                let o = 1 - t;
+                // a blocked thread must still be inside lock(): it may not have reached a point while the holder is not done
+                for b in 0..2 { if blocked[b] { let g = ctl.m.lock().unwrap(); if settled(&g, b) && !g.done[1 - b] {
+                    out.violations.push(("race:mutual-exclusion-violated".into(), format!("pick {k}: the {} thread, released at its before-lock point while the {} thread holds the probation mutex, reached {:?} before the holder finished", name_of(b), name_of(1 - b), g.paused[b])));
+                    blocked[b] = false; } } }
+                let at = { let g = ctl.m.lock().unwrap(); if g.done[t] || blocked[t] { continue; } g.paused[t].unwrap_or("") };
+                let will_block = at.ends_with(":before-lock") && conn.verif_probation_locked();
+                { let mut g = ctl.m.lock().unwrap(); g.go[t] = true; ctl.cv.notify_all(); }
+                if will_block {
+                    blocked[t] = true; out.blocked_seen += 1;
+                    std::thread::sleep(Duration::from_micros(300)); // give a thread that does NOT take the mutex time to show up
+                    continue;
                 }
-                if let Err(e) = wait_parked(t) { err = Some(e); break; }
+                if let Err(e) = wait_parked(t) { err = Some(e); break 'sched; }
+                // where did it stop?
+                let (now_at, t_done) = { let g = ctl.m.lock().unwrap(); (g.paused[t], g.done[t]) };
+                if let Some(n) = now_at { if interior(n) && !conn.verif_probation_locked() {
+                    out.violations.push(("race:critical-section-without-the-mutex".into(), format!("pick {k}: the {} thread is at `{n}` (inside its critical section) and the probation mutex is free", name_of(t)))); } }
+                // leaving the critical section hands the mutex to a blocked peer, which runs to its next point by itself
+                if t_done && blocked[o] {
+                    if let Err(e) = wait_parked(o) { err = Some(e); break 'sched; }
+                    blocked[o] = false;
+                    let g = ctl.m.lock().unwrap();
+                    if let Some(n) = g.paused[o] { if interior(n) && !conn.verif_probation_locked() {
+                        out.violations.push(("race:critical-section-without-the-mutex".into(), format!("pick {k}: the {} thread is at `{n}` and the probation mutex is free", name_of(o)))); } }
+                }
             }
         }
-        if err.is_some() { // release everything so the threads can end
+        { // release everything so the threads can end (normally both are done already)
             let mut g = ctl.m.lock().unwrap(); g.go = [true, true]; ctl.cv.notify_all(); drop(g);
             verif_sched::set(None);
-            std::thread::sleep(Duration::from_millis(50));
-            let mut g = ctl.m.lock().unwrap(); g.go = [true, true]; ctl.cv.notify_all(); drop(g);
+            if err.is_some() { std::thread::sleep(Duration::from_millis(50)); let mut g = ctl.m.lock().unwrap(); g.go = [true, true]; ctl.cv.notify_all(); }
         }
-        verif_sched::set(None);
         if let Some(e) = err { return Err(e); }
         for h in hs { let _ = h.join(); }
-        Ok(final_text(&conn))
+        out.state = final_text(&conn);
+        Ok(out)
     }
     /// the two serial executions on the real code
     fn serial(c: &RaceCase) -> [String; 2] {
@@ -1195,8 +1386,11 @@ mod race {
                     let t = text(&c);
                     match exec(&c) {
                         Err(e) => { run.fail("race:schedule-did-not-complete", &t, &e); }
-                        Ok(out) => {
+                        Ok(ro) => {
+                            let out = ro.state.clone();
                             run.case("race", t.trim_start_matches("race "), &out, true);
+                            run.count_n("race_acquisitions_observed_blocking_on_the_mutex", ro.blocked_seen);
+                            for (sig, d) in &ro.violations { run.fail(sig, &t, d); }
                             let ser = serial(&c);
                             if out != ser[0] && out != ser[1] {
                                 run.fail(&format!("race:{}:outcome-not-serializable", match api { Api::Sig(..) => "signaling-retarget", Api::Reset => "reset", Api::Pair(..) => "pair-update" }),
@@ -1211,8 +1405,9 @@ mod race {
     }
     pub fn replay(case: &str) {
         let c = parse(case);
-        match exec(&c) { Err(e) => println!("schedule did not complete: {e}"), Ok(o) => { println!("impl: {o}"); let s = serial(&c);
-            println!("receive-then-api: {}\napi-then-receive: {}", s[0], s[1]);
+        match exec(&c) { Err(e) => println!("schedule did not complete: {e}"), Ok(ro) => { let o = ro.state; println!("impl: {o}"); let s = serial(&c);
+            println!("receive-then-api: {}\napi-then-receive: {}\nacquisitions observed blocking: {}", s[0], s[1], ro.blocked_seen);
+            for (sig, d) in ro.violations { println!("ORACLE-FAIL {sig} {d}"); }
             if o != s[0] && o != s[1] { println!("ORACLE-FAIL race:outcome-not-serializable"); } } }
     }
 }
